@@ -16,12 +16,12 @@ import (
 )
 
 type Engine struct {
-	P     *load.Program
-	A     *effects.Analysis
-	Guard *ssa.Function // checkInitialized
-	cdg   map[*ssa.Function]*CDG
-	gmemo map[gkey]int // 0 unknown, 1 computing, 2 true, 3 false
-	cmemo map[gkey]int
+	P        *load.Program
+	A        *effects.Analysis
+	Guard    *ssa.Function // checkInitialized
+	cdg      map[*ssa.Function]*CDG
+	gmemo    map[gkey]int // 0 unknown, 1 computing, 2 true, 3 false
+	cmemo    map[gkey]int
 	Problems []string
 }
 
@@ -484,8 +484,7 @@ func (e *Engine) GGuard() []report.Obligation {
 			if !ok {
 				return fail("comparison operand is not a field of a Point")
 			}
-			st := fa.X.Type().Underlying().(*types.Pointer).Elem().Underlying().(*types.Struct)
-			fields[st.Field(fa.Field).Name()] = true
+			fields[load.FieldName(fa.X.Type().Underlying().(*types.Pointer).Elem(), fa.Field)] = true
 			if elemPtr == nil {
 				elemPtr = fa.X
 			} else if elemPtr != fa.X {
@@ -718,12 +717,14 @@ func (e *Engine) classify(f *ssa.Function, d CtrlDep, depth int) []string {
 		switch x := v.(type) {
 		case *ssa.Call:
 			if h := x.Common().StaticCallee(); h != nil {
-				return h, 0, true
+				g, j := e.P.ResultOrigin(h, 0)
+				return g, j, true
 			}
 		case *ssa.Extract:
 			if c, ok := x.Tuple.(*ssa.Call); ok {
 				if h := c.Common().StaticCallee(); h != nil {
-					return h, x.Index, true
+					g, j := e.P.ResultOrigin(h, x.Index)
+					return g, j, true
 				}
 			}
 		}
